@@ -839,3 +839,15 @@ package actions
 //@   ensures ack_only_after_success: (chan_sent(c.fastAckQueue, del.ID) && !old(chan_sent(c.fastAckQueue, del.ID))) || (chan_sent(c.slowAckQueue, del.ID) && !old(chan_sent(c.slowAckQueue, del.ID))) ==> push_acknowledged()
 //@   ensures nack_after_anything_else: chan_sent(c.nackQueue, del.ID) && !old(chan_sent(c.nackQueue, del.ID)) ==> !push_acknowledged()
 //@   modifies *
+
+// the envelope: what is handed to the JSON encoder carries the delivery faithfully - base64 of the payload, the
+// attribute map, message id, ordering key, publish time (RFC 3339 with nanoseconds), subscription name, attempt number
+//@ func (*httpPushStreamConn).Send(c, ctx, del) (err)
+//@   property C19
+//@   uses chanspec
+//@   requires c != nil && del != nil
+//@   ensures envelope: err == nil ==> posted() != nil && posted().Subscription == c.subscriptionName && posted().DeliveryAttempt == del.NumAttempts &&
+//@             posted().Message.Data == b64(del.Payload) && posted().Message.Attributes == del.Attributes && posted().Message.MessageId == uuidstr(del.MessageID) &&
+//@             posted().Message.PublishTime == timefmt(del.PublishedAt, "2006-01-02T15:04:05.999999999Z07:00") &&
+//@             posted().Message.OrderingKey == ite(del.OrderKey != nil, deref(del.OrderKey), "")
+//@   modifies *
